@@ -322,7 +322,13 @@ pub fn apply(op: usize, s: &mut TypeSpec, d: &mut Dna) -> Option<Fault> {
                     let f = &mut s.variants[vi].fields[fi];
                     let m = crate::types::into_method(&t);
                     f.attrs.retain(|a| !(a.tr == Tr::Into && a.into_ty.as_deref() == Some(t.as_str())));
-                    f.raw.push(format!("#[educe(Into({t}, method({m})), Into({t}, method({m})))]"));
+                    if d.chance(50) {
+                        f.raw.push(format!("#[educe(Into({t}, method({m})), Into({t}, method({m})))]"));
+                    } else {
+                        // the same target in two separate attributes of the field
+                        f.raw.push(format!("#[educe(Into({t}, method({m})))]"));
+                        f.raw.push(format!("#[educe(Into({t}, method({m})))]"));
+                    }
                     mk(4, format!("Into({t}) twice on field {vi}.{fi}"), format!("field/{}/Into", pos_class(fi, nf)))
                 },
                 _ => {
